@@ -458,6 +458,24 @@ Section Model.
       (flat_map (fun p => if p_time p <=? t then []
                           else [mkPulse (p_srcs p) (p_dst p) (p_time p - t) (p_props p)]) (g_pulses g)).
 
+  (** the size of a deme at a time, as `demes` defines it (Deme.size_at): the first epoch with start > u >= end, the
+      size function of that epoch evaluated at u.  [None]: the deme does not exist at u.  Reference for what slicing has
+      to preserve. *)
+  Definition epoch_has (e : epoch) (u : F) : bool := (e_end e <=? u) && negb (tleb (e_start e) (Fin u)).
+  Definition epoch_size_at (e : epoch) (u : F) : F := size_at u (e_s0 e) (e_s1 e) (e_start e) (e_end e) (e_fn e).
+  Fixpoint epochs_size_at (es : list epoch) (u : F) : option F :=
+    match es with
+    | [] => None
+    | e :: es' => if epoch_has e u then Some (epoch_size_at e u) else epochs_size_at es' u
+    end.
+  Definition deme_size_at (d : deme) (u : F) : option F := epochs_size_at (d_epochs d) u.
+
+  (** the rate of the migration src -> dst in force at time u (the last matching entry wins, as in [mig_rate]) *)
+  Definition mig_rate_at (g : graph) (src dst : nat) (u : F) : F :=
+    fold_left (fun r m => if Nat.eqb (m_src m) src && Nat.eqb (m_dst m) dst
+                             && (m_end m <=? u) && negb (tleb (m_start m) (Fin u))
+                          then m_rate m else r) (g_migs g) n0.
+
   (** ** _augment_with_ancient_samples at the resolved level *)
   Definition subst_id (a b : nat) (x : nat) : nat := if Nat.eqb x a then b else x.
   (** the deme a is renamed b (everywhere it is referred to) *)
